@@ -181,7 +181,8 @@ func (e *Enc) enterLoop(fr *Frame, li *loopInfo, pre *State) *State {
 	// invariants hold on entry
 	if li.spec != nil {
 		for i, inv := range li.spec.Invariants {
-			c, err := ec.evalBool(inv.Expr)
+			budget := conjBudget
+			cs, err := ec.evalConjuncts(inv.Expr, &budget)
 			if err != nil {
 				e.failed = fmt.Errorf("%s:%d: %v", inv.File, inv.Line, err)
 				return pre
@@ -190,8 +191,13 @@ func (e *Enc) enterLoop(fr *Frame, li *loopInfo, pre *State) *State {
 			if lab == "" {
 				lab = fmt.Sprintf("%d", i+1)
 			}
-			e.oblig(pre, "inv-entry", label+":"+lab, c, li.head.Instrs[0].Pos(), inv.Tags, inv)
-			e.assume(pre, c) // checked above; kept as a lemma about the pre-loop state
+			for ci, c := range cs {
+				e.oblig(pre, "inv-entry", label+":"+lab+conjSuffix(ci), c, li.head.Instrs[0].Pos(), inv.Tags, inv)
+			}
+			// checked above (piecewise); kept, as one fact, as a lemma about the pre-loop state
+			if whole, err := ec.evalBool(inv.Expr); err == nil {
+				e.assume(pre, whole)
+			}
 		}
 	}
 	// termination: range loops over a slice or map evaluate their operand once and are finite;
@@ -425,7 +431,8 @@ func (e *Enc) backEdge(fr *Frame, li *loopInfo, st *State, pos token.Pos) {
 		ec.loopPre = li.preSt
 		ec.loopIdx = rangeIndexAlloc(li)
 		for i, inv := range li.spec.Invariants {
-			c, err := ec.evalBool(inv.Expr)
+			budget := conjBudget
+			cs, err := ec.evalConjuncts(inv.Expr, &budget)
 			if err != nil {
 				e.failed = fmt.Errorf("%s:%d: %v", inv.File, inv.Line, err)
 				return
@@ -434,7 +441,9 @@ func (e *Enc) backEdge(fr *Frame, li *loopInfo, st *State, pos token.Pos) {
 			if lab == "" {
 				lab = fmt.Sprintf("%d", i+1)
 			}
-			e.oblig(st, "inv-preserve", label+":"+lab, c, pos, inv.Tags, inv)
+			for ci, c := range cs {
+				e.oblig(st, "inv-preserve", label+":"+lab+conjSuffix(ci), c, pos, inv.Tags, inv)
+			}
 		}
 		if li.hasDecr {
 			d, err := ec.eval(li.spec.Decreases.Expr)
@@ -1447,4 +1456,15 @@ func sortedValues(m map[ssa.Value]bool) []ssa.Value {
 		return out[i].Name() < out[j].Name()
 	})
 	return out
+}
+
+// a clause is checked conjunct by conjunct (evalConjuncts): smaller queries, and a failure names
+// the conjunct. conjBudget bounds the number of pieces per clause.
+const conjBudget = 24
+
+func conjSuffix(i int) string {
+	if i == 0 {
+		return ""
+	}
+	return fmt.Sprintf(".c%d", i+1)
 }
